@@ -92,7 +92,7 @@ def run(rep):
     dynfam = dict(Ops='{"MacroLenTab","RangeN","InsertAxisN","LoopConcat","LoopSum","Take","Inflate","Multiply","Add","IntToFloat","Sum","InsertAxis","Diagonalize","Transpose"}',
                   LeafSet='{1, 2, 4, 8, 13, 20}', MaxOps=5, MaxNodes=9, MaxLeaves=4)
     sel = exprs.corpus(rep, rng, 'c05', k, quick=quick, need_arg=False, extra=[('sparse', fam, 200 if quick else 3000)])
-    for ps in exprs.extended(rep, rng, 'c05-ext', ['cxsparse', 'dynsparse', 'einsum'], k // 15, quick=quick, families=dict(cxsparse=cxfam, dynsparse=dynfam)).values():
+    for ps in exprs.extended(rep, rng, 'c05-ext', ['cxsparse', 'dynsparse', 'einsum', 'inflate3', 'uvc'], k // 15, quick=quick, families=dict(cxsparse=cxfam, dynsparse=dynfam)).values():
         sel += ps
     rep.lap('generated')
     items = [(p, i % len(dag.ENVS)) for i, p in enumerate(sel)]
